@@ -11,7 +11,7 @@ MANIFEST = dict(
          "in every reachable cache state that the effective schemas, bound values and rows are those of the cache-free meaning F (rows come "
          "from the file the map points to; a map only shifts rows between files), that the only cache-dependent outcome is the documented "
          "InvalidRequestError for maps that are inconsistent about the None key, and rejects a key that ignores the map flag. Binding: all "
-         "schema-capable shapes (select / subquery / CTE / union / cross-schema join / INSERT-UPDATE-DELETE..RETURNING / CREATE TABLE) x 3 "
+         "schema-capable shapes (select / subquery / CTE / union / cross-schema join / INSERT-UPDATE-DELETE..RETURNING / executemany INSERT..RETURNING with a scalar subquery on the other schema in VALUES / CREATE TABLE) x 3 "
          "valuations x 5 maps are executed cold on SQLite with two ATTACHed files and the emitted SQL must equal the SQL of the same "
          "construct built over tables that carry the translated schema names; every edge of the cache graphs of sampled groups x map subsets "
          "is replayed against an engine with query_cache_size=2 in lockstep with a cache-less engine.",
@@ -20,24 +20,31 @@ MANIFEST = dict(
          "and maps with None as a TARGET are not generated: the latter render the dialect's default schema name, `main.a`)",
     technique="TLA+ specs (StmtShapes.tla, StmtCache.tla) + TLC exhaustive over the cache graph with maps; spec->code: shape table executed "
               "on real engines + replay of every state-graph edge")
-KINDS = ["sel", "ins", "upd", "del", "ddl"]
+KINDS = ["sel", "ins", "upd", "del", "ddl", "insm"]
 SELFTEST_GROUP = ["sel|a|eq|none|none|none", "sel|s1|in|none|none|none", "sel|xjoin|eq|none|none|none"]
 
 
 def pick_plans(names, rng, n, depth):
     """a group = one statement over the schema-less table (or the cross-schema join), one over s1.a, one CREATE TABLE; executed under a
     subset of three maps so that the graph stays small; over the plans every map and every pair of map flavours occurs"""
-    none_side = [x for x in names if x.split("|")[1] in ("a", "xjoin") and not x.startswith("ddl")]
-    s1_side = [x for x in names if x.split("|")[1] == "s1" and not x.startswith("ddl")]
+    none_side = [x for x in names if x.split("|")[1] in ("a", "xjoin") and not x.startswith(("ddl", "insm"))]
+    s1_side = [x for x in names if x.split("|")[1] == "s1" and not x.startswith(("ddl", "insm"))]
+    insm = [x for x in names if x.startswith("insm")]
     ddl = [x for x in names if x.startswith("ddl")]
     triples = [["none", "s1s2", "n_s1"], ["none", "ident", "both"], ["s1s2", "n_s1", "both"], ["ident", "n_s1", "s1s2"], ["none", "both", "n_s1"],
                ["none", "s1s2", "ident"]]
+    same_flavour = [["none", "s1s2", "ident"], ["s1s2", "n_s1", "both"], ["ident", "n_s1", "s1s2"]]
     plans = []
     for i in range(n):
         g = [rng.choice(none_side), rng.choice(s1_side)]
         if i % 2 == 0:
             g.append(rng.choice(ddl))
-        plans.append((g, 2, triples[i % len(triples)], ["cached"], depth))
+            plans.append((g, 2, triples[i % len(triples)], ["cached"], depth))
+        else:
+            # executemany INSERT..RETURNING whose VALUES holds a scalar subquery on the other schema's table (insertmanyvalues path),
+            # under maps of which two have the same None-key flavour but send s1 to different places (a HIT with another map succeeds)
+            g = [g[(i // 2) % 2], insm[(i // 2) % len(insm)]]
+            plans.append((g, 2, same_flavour[(i // 2) % len(same_flavour)], ["cached"], depth))
     return plans
 
 
